@@ -82,6 +82,8 @@ def w_missing(job):
                     continue
                 sc = score if has_score else False
                 for nj in job['n_jobs']:
+                    if score and attrs and nj != 1:
+                        continue          # the full option cross product is the config-cross layer's business
                     cases += 1
                     sched.CTL.reset()
                     base = run_entry(kind, cfg, L, R, False, sc, attrs, nj)
